@@ -4,7 +4,7 @@ CONSTANTS
   Rs = {1, 2}
   Offs = {0}
   Ops = {"marginal", "linear_sum"}
-  PdfKinds = {"PDF:S", "PDF:SLD", "DiagPDF:S"}
+  PdfKinds = {"PDF:S", "PDF:SL", "PDF:SLD", "DiagPDF:S"}
 INIT Init
 NEXT Next
 CHECK_DEADLOCK FALSE
